@@ -2,6 +2,10 @@ import Otel.Base.Wire
 import Otel.C15.Model
 import Otel.C15.Spec
 import Otel.C15.Gate
+import Otel.C15.Park
+import Otel.C15.Err
+import Otel.C15.ErrLP
+import Otel.C15.ErrMP
 import Otel.C15.Lag
 import Otel.C15.Reent
 open Otel Otel.Wire Otel.C15
@@ -19,13 +23,15 @@ def parseRes (s : String) : Option Res :=
   else if s == "panic" || s == "hang" then some .crash
   else if s.startsWith "err:" then
     let f := (dropS s 4).toList
-    if f.all (fun c => c == 'c' || c == 'd' || c == 's') then some (.err (f.contains 'c') (f.contains 'd') (f.contains 's'))
+    if f == ['o'] then some (.err false false false)   -- a non-context error (user callback result)
+    else if f.all (fun c => c == 'c' || c == 'd' || c == 's') then some (.err (f.contains 'c') (f.contains 'd') (f.contains 's'))
     else none   -- an error of an unknown class never agrees with the model
   else if s.startsWith "v" then (dropS s 1).toNat?.map .val
   else none
 
 def renderRes : Res → String
   | .none => "-" | .ok => "ok" | .sdk => "sdk" | .noop => "noop" | .crash => "crash"
+  | .err false false false => "err:o"
   | .err c d s => "err:" ++ (if c then "c" else "") ++ (if d then "d" else "") ++ (if s then "s" else "")
   | .val v => s!"v{v}"
 
@@ -93,7 +99,7 @@ def baseKind (s : String) : String := (((s.splitOn "@").headD s).splitOn "+").he
 
 def parsePKind (s : String) : Option TP.PKind :=
   match baseKind s with
-  | "r" => some .recd | "sr" => some .simpleRec | "sn" => some .simpleNil | "br" => some .batchRec | "bn" => some .batchNil
+  | "r" | "re" => some .recd | "sre" => some .simpleRec | "bre" => some .batchRec | "sr" => some .simpleRec | "sn" => some .simpleNil | "br" => some .batchRec | "bn" => some .batchNil
   | _ => none
 
 def parseKinds {α : Type} (p : String → Option α) (s : String) : Option (List α) :=
@@ -267,10 +273,121 @@ def gtpLine (kindsS : String) (opToks obsToksAll : List String) : Option Verdict
          branches := if br.isEmpty then "-" else ",".intercalate br,
          model := " ".intercalate (renderG n (fun _ => {}) model) }
 
+/-! ### trace provider, forced schedules: a ForceFlush parked after a batch processor's stopped check (`ptp`) -/
+def parsePOp (t : String) (o : Option (Res × List (Nat × Cnt))) : Option Park.POp :=
+  if t == "rel" then some .rel
+  else match t.splitOn ":" with
+    | ["ffpark", "p"] => some (.ffpark none)
+    | ["ffpark", i] => i.toNat?.map fun i => .ffpark (some i)
+    | _ => (parseTPOp t o).map .op
+
+def pObs (prev : Nat → Cnt) : List (Res × Bool × List (Nat × Cnt)) → List Park.PObs
+  | [] => []
+  | (r, p, ds) :: rest => let cur := applyDeltas prev ds; { res := r, parked := p, snap := cur } :: pObs cur rest
+
+def renderP (n : Nat) (prev : Nat → Cnt) : List Park.PObs → List String
+  | [] => []
+  | o :: r => ((if o.parked then "parked" else renderRes o.res) ++ renderDelta n prev o.snap) :: renderP n o.snap r
+
+def pBranches (g : Park.PSt) : List Park.POp → List String
+  | [] => []
+  | op :: r =>
+    let x := Park.pstep g op
+    let tag := match op with
+      | .ffpark t =>
+        (if x.2.2 then "ffpark-parked" else if g.fly.isSome then "ffpark-second" else "ffpark-through") ++
+          (match t with | none => "-provider" | some _ => "-direct")
+      | .rel =>
+        match g.fly with
+        | none => "rel-idle"
+        | some (k, post) =>
+          (if (g.st.pool k).stopped then "rel-after-shutdown" else if (g.st.pool k).kind == .batchNil then "rel-nil-exporter"
+           else if (g.st.pool k).queued == 0 then "rel-live-empty" else "rel-live-export") ++
+            (if post.isEmpty then "" else ",rel-rest-of-snapshot")
+      | .op o => if g.fly.isSome then "ffoverlap-" ++ tpBranch g.st o else tpBranch g.st o
+    tag :: pBranches x.1 r
+
+def ptpLine (kindsS : String) (opToks obsToksAll : List String) : Option Verdict := do
+  let kinds ← parseKinds parsePKind kindsS
+  let (obsToks, settleTok) := splitSettle obsToksAll
+  let settleQuiet := match settleTok with | some t => t == "-" | none => true
+  let raw ← obsToks.mapM parseGObs
+  -- only live contexts: the races a done context opens inside the stock processors are not part of the parked model
+  if opToks.any (fun t => t == "sd:c" || t == "sd:e" || t == "ff:c" || t == "ff:e") then none
+  let ops ← (zipOpt opToks raw).mapM fun (t, o) => parsePOp t (o.map fun (r, _, ds) => (r, ds))
+  let n := kinds.length
+  let obs := pObs (fun _ => {}) raw
+  let model := Park.prun kinds ops
+  let agree := model.length == obs.length &&
+    (model.zip obs).all fun (m, o) => m.res == o.res && m.parked == o.parked && snapEq n m.snap o.snap
+  -- live contexts only: every Shutdown completes inside its call, nothing may move at the settle
+  let fails := (Park.pcheck kinds ops obs).or { m := !settleQuiet }
+  -- a call that never returns with room in the queue is a plain failure (known finding F42 needs the FULL queue of an
+  -- exited worker: not reachable with the default queue size of these scripts, never classified here)
+  let spec := if !fails.any then "ok" else "FAIL:" ++ failTags fails ++
+    (if obsToksAll.contains "hang" then ",blocks-forever" else "")
+  let br := dedup (pBranches { st := TP.init kinds } ops)
+  pure { agree := agree, spec := spec, nontrivial := raw.any (fun (_, p, _) => p),
+         branches := if br.isEmpty then "-" else ",".intercalate br,
+         model := " ".intercalate (renderP n (fun _ => {}) model) }
+
+/-! ### trace provider, callback results as a script dimension: erring user processors (`etp`) -/
+def parseE (kindsS : String) : Nat → Bool :=
+  let ks := if kindsS == "-" then [] else (kindsS.splitOn ",").map baseKind
+  fun i => ks.getD i "" == "re" || ks.getD i "" == "sre" || ks.getD i "" == "bre"
+
+/-- the Choice of a Shutdown with a done context: `e` = a CONTEXT error was reported (a user error is not one) -/
+def parseTPOpE (t : String) (o : Option (Res × List (Nat × Cnt))) : Option TP.Op :=
+  let ctxErr := match o with | some (.err c d _, _) => c || d | _ => false
+  match parseTPOp t o with
+  | some (.shutdown c ch) => some (.shutdown c { ch with e := fun _ => ctxErr })
+  | x => x
+
+def eBranches (E : Nat → Bool) (x : Err.StE) : List TP.Op → List String
+  | [] => []
+  | op :: r =>
+    let y := Err.stepE E x op
+    let tag := match op with
+      | .unreg i => if y.1.handled != x.handled then "unr-erring-handled" else
+          if E i then "unr-erring-" ++ tpBranch x.st op else tpBranch x.st op
+      | .shutdown _ _ => if y.2 == Err.userErr then "sd-user-error" else tpBranch x.st op
+      | .flush _ => if y.2 == Err.userErr then
+            (if (List.range 16).all (fun i => ((Err.flushUntil E x.st x.st.pool x.st.procs).1 i).cnt ==
+                  ((TP.flushAll x.st.pool x.st.procs) i).cnt) then "ff-user-error"
+             else "ff-user-error-cut")
+          else tpBranch x.st op
+      | .pshut i => if Err.errsShut E x.st i then "psd-user-error" else tpBranch x.st op
+      | _ => tpBranch x.st op
+    tag :: eBranches E y.1 r
+
+def etpLine (kindsS : String) (opToks obsToksAll : List String) : Option Verdict := do
+  let kinds ← parseKinds parsePKind kindsS
+  let E := parseE kindsS
+  let (obsToks, settleTok) := splitSettle obsToksAll
+  let settleQuiet := match settleTok with | some t => t == "-" | none => true
+  let raw ← obsToks.mapM parseObs
+  let ops ← (zipOpt opToks raw).mapM fun (t, o) => parseTPOpE t o
+  -- a Shutdown with a done context on a stock processor around a recording exporter finishes asynchronously (Lag.lean):
+  -- not part of these scripts
+  if kinds.any (fun k => k == .simpleRec || k == .batchRec) && ops.any (fun o => match o with | .shutdown c _ => c.done | _ => false)
+  then none
+  let n := kinds.length
+  let obs := tpObs (fun _ => {}) raw
+  let model := Err.runE E kinds ops
+  let agree := model.length == obs.length &&
+    (model.zip obs).all fun (m, o) => m.res == o.res && snapEq n m.snap o.snap
+  let fails := (Err.checkE E kinds ops obs).or { m := !settleQuiet }
+  let br := dedup (eBranches E { st := TP.init kinds } ops)
+  pure { agree := agree, spec := if fails.any then "FAIL:" ++ failTags fails else "ok",
+         nontrivial := raw.any (fun (_, ds) => !ds.isEmpty),
+         branches := if br.isEmpty then "-" else ",".intercalate br,
+         model := " ".intercalate (renderTP n (fun _ => {}) model) }
+
 /-! ### logger provider -/
 def parseLKind (s : String) : Option LP.LKind :=
   match baseKind s with
-  | "r" => some .recd | "sr" => some .simpleRec | "sn" => some .simpleNil | "br" => some .batchRec | "bn" => some .batchNil
+  | "r" | "re" => some .recd | "sr" | "sre" => some .simpleRec | "sn" => some .simpleNil
+  | "br" | "bre" => some .batchRec | "bn" => some .batchNil
   | _ => none
 
 /-- ops of the log script; the choice of a flush / shutdown is read off the observation of that step -/
@@ -365,10 +482,54 @@ def lpLine (kindsS : String) (opToks obsToksAll : List String) : Option Verdict 
          branches := if br.isEmpty then "-" else ",".intercalate br,
          model := " ".intercalate (renderLP n (fun _ => {}) model) }
 
+/-! ### logger provider, callback results as a script dimension (`elp`) -/
+/-- the Choice bit `e` = a CONTEXT error was reported (a user error is not one) -/
+def parseLPOpE (t : String) (o : Option (Res × List (Nat × Cnt))) : Option LP.Op :=
+  let ctxErr := match o with | some (.err c d _, _) => c || d | _ => false
+  match parseLPOp t o with
+  | some (.flush c ch) => some (.flush c { ch with e := fun _ => ctxErr })
+  | some (.shutdown c ch) => some (.shutdown c { ch with e := fun _ => ctxErr })
+  | x => x
+
+def elpBranches (E : Nat → Bool) (x : LErr.StE) : List LP.Op → List String
+  | [] => []
+  | op :: r =>
+    let y := LErr.stepE E x op
+    let base := match lpBranches x.st [op] with | b :: _ => b | [] => "-"
+    let tag := match op with
+      | .emit _ => if y.1.handled != x.handled then "em-error-handled" else base
+      | .flush _ _ => if y.2 == LErr.userErr then "ff-user-error" else base
+      | .shutdown _ _ => if y.2 == LErr.userErr then "sd-user-error" else base
+      | _ => base
+    tag :: elpBranches E y.1 r
+
+def elpLine (kindsS : String) (opToks obsToksAll : List String) : Option Verdict := do
+  let kinds ← parseKinds parseLKind kindsS
+  let E := parseE kindsS
+  let (obsToks, settleTok) := splitSettle obsToksAll
+  let settleQuiet := match settleTok with | some t => t == "-" | none => true
+  let raw ← obsToks.mapM parseObs
+  let ops ← (zipOpt opToks raw).mapM fun (t, o) => parseLPOpE t o
+  -- a done context makes the export of a batch processor around a recording exporter asynchronous (Lag.lean): not part
+  -- of these scripts
+  if kinds.any (fun k => k == .batchRec) &&
+     ops.any (fun o => match o with | .shutdown c _ | .flush c _ => c.done | _ => false) then none
+  let n := kinds.length
+  let obs := lpObs (fun _ => {}) raw
+  let model := LErr.runE E kinds ops
+  let agree := model.length == obs.length &&
+    (model.zip obs).all fun (m, o) => m.res == o.res && snapEq n m.snap o.snap
+  let fails := (LErr.checkE E kinds ops obs).or { m := !settleQuiet }
+  let br := dedup (elpBranches E { st := LP.init kinds } ops)
+  pure { agree := agree, spec := if fails.any then "FAIL:" ++ failTags fails else "ok",
+         nontrivial := raw.any (fun (_, ds) => !ds.isEmpty),
+         branches := if br.isEmpty then "-" else ",".intercalate br,
+         model := " ".intercalate (renderLP n (fun _ => {}) model) }
+
 /-! ### meter provider -/
 def parseRKind (s : String) : Option MP.RKind :=
   match baseKind s with
-  | "m" => some .manual | "p" => some .periodic | _ => none
+  | "m" => some .manual | "p" | "pe" | "pf" | "ps" | "pa" => some .periodic | _ => none
 
 /-- choice of a ForceFlush with a done context, read off the observation: for a live reader the code is
 `Δn + 2·Δf`; for readers that are shut down the error flags tell which select branches were taken (first
@@ -466,6 +627,55 @@ def mpLine (kindsS : String) (opToks obsToksAll : List String) : Option Verdict 
   let fails := Lag.M.mcheck kinds mops (mpSynth (fun _ => {}) steps rawAll)
   let br := dedup (mpBranches (MP.init kinds) ops ++ (if steps.any (·.1.isSome) then ["late-export"] else []) ++
     (match settle with | some (_, ds) => if ds.isEmpty then ["settle-quiet"] else ["settle-arrival"] | none => []))
+  pure { agree := agree, spec := if fails.any then "FAIL:" ++ failTags fails else "ok",
+         nontrivial := raw.any (fun (_, ds) => !ds.isEmpty),
+         branches := if br.isEmpty then "-" else ",".intercalate br,
+         model := " ".intercalate (renderMP n (fun _ => {}) model) }
+
+/-! ### meter provider, callback results as a script dimension (`emp`) -/
+def parseEM (kindsS : String) : MErr.ErrSet :=
+  let ks := if kindsS == "-" then [] else (kindsS.splitOn ",").map baseKind
+  let k := fun (i : Nat) => ks.getD i ""
+  { x := fun i => k i == "pe" || k i == "pa", f := fun i => k i == "pf" || k i == "pa",
+    s := fun i => k i == "ps" || k i == "pa" }
+
+/-- live contexts only (a done context races inside PeriodicReader.ForceFlush: not part of these scripts) -/
+def parseMPOpE (t : String) : Option MP.Op :=
+  match t.splitOn ":" with
+  | ["mt", k] => k.toNat?.map .meter
+  | ["ad", k] => k.toNat?.map .add
+  | ["co", i] => i.toNat?.map .collect
+  | ["ff", c] => (parseCtx c).bind fun c => if c.done then none else some (.flush c {})
+  | ["sd", c] => (parseCtx c).bind fun c => if c.done then none else some (.shutdown c)
+  | _ => none
+
+def empBranches (E : MErr.ErrSet) (s : MP.St) : List MP.Op → List String
+  | [] => []
+  | op :: r =>
+    let y := MErr.stepE E s op
+    let tag := match op with
+      | .flush _ _ => if y.2 == MErr.userErr then
+            (if (List.range s.n).any (fun i => MErr.errFlush E s.pool i && E.x i) then "ff-export-error-skips-exporter-flush"
+             else "ff-user-error")
+          else mpBranch s op
+      | .shutdown _ => if y.2 == MErr.userErr then "sd-user-error" else mpBranch s op
+      | _ => mpBranch s op
+    tag :: empBranches E y.1 r
+
+def empLine (kindsS : String) (opToks obsToksAll : List String) : Option Verdict := do
+  let kinds ← parseKinds parseRKind kindsS
+  let E := parseEM kindsS
+  let (obsToks, settleTok) := splitSettle obsToksAll
+  let settleQuiet := match settleTok with | some t => t == "-" | none => true
+  let raw ← obsToks.mapM parseObs
+  let ops ← opToks.mapM parseMPOpE
+  let n := kinds.length
+  let obs := mpObs (fun _ => {}) raw
+  let model := MErr.runE E kinds ops
+  let agree := model.length == obs.length &&
+    (model.zip obs).all fun (m, o) => m.res == o.res && snapEq n m.snap o.snap
+  let fails := (MErr.checkE E kinds ops obs).or { m := !settleQuiet }
+  let br := dedup (empBranches E (MP.init kinds) ops)
   pure { agree := agree, spec := if fails.any then "FAIL:" ++ failTags fails else "ok",
          nontrivial := raw.any (fun (_, ds) => !ds.isEmpty),
          branches := if br.isEmpty then "-" else ",".intercalate br,
@@ -614,6 +824,10 @@ def stepLine (_ : Unit) (toks : List String) : Unit × Option Verdict :=
   match inp with
   | "tp" :: _ :: kinds :: _ :: "|" :: ops => ((), tpLine kinds ops obs)
   | "gtp" :: _ :: kinds :: "|" :: ops => ((), gtpLine kinds ops obs)
+  | "ptp" :: _ :: kinds :: "|" :: ops => ((), ptpLine kinds ops obs)
+  | "etp" :: _ :: kinds :: "|" :: ops => ((), etpLine kinds ops obs)
+  | "elp" :: _ :: kinds :: "|" :: ops => ((), elpLine kinds ops obs)
+  | "emp" :: _ :: kinds :: "|" :: ops => ((), empLine kinds ops obs)
   | "rtp" :: _ :: kinds :: "|" :: ops => ((), rtpLine kinds ops obs)
   | "rlp" :: _ :: kinds :: "|" :: ops => ((), rlpLine kinds ops obs)
   | "rmp" :: _ :: kinds :: "|" :: ops => ((), rmpLine kinds ops obs)
